@@ -16,7 +16,7 @@
 
   Narrowings made explicit:
     * `uint16_t data_base, header_size, offset, track_header_offset`: `% 65536`; a header that
-      does not fit 16 bits is an `InputError` since repository fix 8d409a9 (`FErr.headerWrap`;
+      does not fit 16 bits is an `InputError` since repository fix 5952bf5 (`FErr.headerWrap`;
       before it the pointer table was written over the streams and the file was still written);
       a stream offset above 65535 is an `InputError` (`stream_offset()`, `FErr.seqTooLarge`);
     * `sequence_data[k] = x` stores `x % 256`;
@@ -27,7 +27,7 @@
     * `vol = strtoul(..)` narrows `unsigned long` to `int` (low 32 bits, two's complement);
     * the `dblk` id is a `uint32_t`: `(get_data_id + flag) % 2^32`, stored little-endian.
   `top()` of an empty stack in `convert_track` / `convert_macro_track` (`CErr.stackEmpty`, reachable
-  with a raw `cmd` platform command) is an `InputError` since repository fix c5dd456.
+  with a raw `cmd` platform command) is an `InputError` since repository fix 3e0ed67.
   Undefined behaviour made explicit: `data_bank[i]` outside the bank (`FErr.bankIndex`).
 -/
 import Ctrmml.Model.MdsConv
